@@ -30,8 +30,8 @@ type C01Case struct {
 	Latency  []int    `json:"latency"` // handler latency class per call (cycled): 0 none, 1 Gosched, 2..: k*100us
 	IDs      []string `json:"ids"`     // raw layer: compact JSON ids (cycled, made unique per session with a suffix where needed)
 	Real     bool     `json:"real"`
-	Fails    []bool   `json:"fails"`           // per call (cycled): the handler fails with an error that embeds the request's nonce
-	Lists    bool     `json:"lists,omitempty"` // lib layer: every fourth in-flight slot is a tools/list or prompts/list instead of a call
+	Fails    []bool   `json:"fails"`            // per call (cycled): the handler fails with an error that embeds the request's nonce
+	Lists    bool     `json:"lists,omitempty"`  // lib layer: every fourth in-flight slot is a tools/list or prompts/list instead of a call
 	IDBase   int64    `json:"idbase,omitempty"` // lib layer: the client has already issued this many requests (its id counter starts here)
 }
 
